@@ -13,8 +13,13 @@ def pair(na, nb, ranks, **kw):
 
 # (ENC, SEL, SIMSRC) - see harness/C07/bddincl.cc; SEL bit 0 = sim, bits 1..2 = 0 up, 1 down non-rec, 2 down rec, 3 down rec + cache
 IMPLEMENTED = [(0, 0, 0), (0, 1, 1), (0, 5, 0), (0, 5, 1), (1, 4, 0), (1, 6, 0), (1, 5, 1), (1, 7, 1)]
-UNIMPLEMENTED = [(0, 1, 0), (0, 2, 0), (0, 3, 0), (0, 3, 1), (0, 4, 0), (0, 6, 0), (0, 7, 0), (0, 7, 1),
-                 (1, 0, 0), (1, 1, 0), (1, 1, 1), (1, 2, 0), (1, 3, 0), (1, 3, 1), (1, 5, 0), (1, 7, 0)]
+# unimplemented selections whose exception comes from ComputeSimulation (NotImplementedException(__func__))
+UNIMPLEMENTED = [(0, 1, 0), (1, 1, 0), (1, 3, 0), (1, 5, 0), (1, 7, 0)]
+# unimplemented selections whose exception message is built with InclParam::toString() -> Convert::ToString(bool) ->
+# std::ostringstream: the engine has no model of basic_ios::init / std::locale yet (VSYMEX-INCONCLUSIVE ... _M_cache_locale);
+# set the flag when it has, the queries are complete
+OSTRINGSTREAM_MODELLED = False
+UNIMPLEMENTED_TOSTRING = [(0, 2, 0), (0, 3, 0), (0, 3, 1), (0, 4, 0), (0, 6, 0), (0, 7, 0), (0, 7, 1), (1, 0, 0), (1, 1, 1), (1, 2, 0), (1, 3, 1)]
 # sub-universes of B over 2 states, {a/0,b/0,g/2} (bit i = universe rule i is a solver variable)
 B6 = '0x81ful'    # a->r0, a->r1, b->r0, b->r1, g(r0,r0)->r0, g(r1,r1)->r1
 B8 = '0xc3ful'    # B6 + g(r0,r1)->r0, g(r1,r0)->r1
@@ -34,7 +39,7 @@ def c07_configs(tier):
             out.append(pair(1, 2, [0, 0, 2], BFREE=B8, _time=2800, **k))   # 14 bits
             out.append(pair(2, 2, [0, 1], _time=2800, **k))          # 16 bits
             out.append(pair(2, 1, [0, 1], SEED=0, PRIME=2, **k))     # 11 bits, numbering by the loader
-    for (enc, sel, src) in UNIMPLEMENTED:
+    for (enc, sel, src) in UNIMPLEMENTED + (UNIMPLEMENTED_TOSTRING if OSTRINGSTREAM_MODELLED else []):
         out.append(pair(1, 1, [0, 0, 1], ENC=enc, SEL=sel, SIMSRC=src))   # 8 bits
     return out
 
@@ -42,7 +47,7 @@ CHECKS = {
  'C07': {
   'level': 'model_checking',
   'explanation': 'BDDBottomUpTreeAut::CheckInclusion / BDDTopDownTreeAut::CheckInclusion executed symbolically (MTBDD package, sanitisation, inversion to top-down form, simulation computation included) for every parameter selection on every pair of automata drawn from the rule universes of the configuration (presence bit per rule, finality bit per state); operands loaded through LoadFromString and prepared as cli/operations.hh does (SanitizeAutsForInclusion; for sim=yes the relation the tool computes on UnionDisjointStates, or the identity relation where the library cannot compute one). Implemented selections: the verdict must equal an independent macro-state inclusion oracle on the rule masks (the same oracle semantics as the explicit-encoding check C01); every other selection must end in an exception before returning a verdict.',
-  'bounds': {'quick': 'pairs (A,B): 1+1 over {a/0,b/0,f/1} and {a/0,b/0,g/2}; 2+1, 1+2 over {a/0,f/1}; 1+2 over {a/0,b/0,g/2} with B restricted to a 6-rule sub-universe in which children are reached by different trees; all rule subsets and final sets (8..12 free bits per query); 8 implemented selections (bottom-up: upward, upward+identity relation, downward+simulation computed by the library; top-down: downward recursive with/without implication cache, with/without identity relation), 16 unimplemented selections on 1+1',
+  'bounds': {'quick': 'pairs (A,B): 1+1 over {a/0,b/0,f/1} and {a/0,b/0,g/2}; 2+1, 1+2 over {a/0,f/1}; 1+2 over {a/0,b/0,g/2} with B restricted to a 6-rule sub-universe in which children are reached by different trees; all rule subsets and final sets (8..12 free bits per query); 8 implemented selections (bottom-up: upward, upward+identity relation, downward+simulation computed by the library; top-down: downward recursive with/without implication cache, with/without identity relation), the unimplemented selections on 1+1 (5 whose exception comes from ComputeSimulation; 11 more whose message needs std::ostringstream are registered but switched off until the engine models it)',
              'thorough': 'as quick plus 2+2 over {a/0,f/1}, 1+2 over {a/0,b/0,g/2} with an 8-rule sub-universe of B, 2+1 with loader-assigned numbering (up to 16 free bits per query)'},
   'outside': 'more than 2 states per operand, rank > 2, more than 3 symbols; simulation relations other than identity / the one the library computes; congruence algorithm, breadth-first order',
   'harnesses': [
